@@ -35,7 +35,7 @@ ASSUMPTIONS = [
     "reference stream interpreter B3 in this file (DESIGN.md Appendix B3) decides accept / reject / not-done and the resulting content",
     "TTLs are a function of (owner, type) so RRset TTLs do not change between versions",
 ]
-REQUIRED = ["mon.valid_transfer_converges", "mon.faulted_transfer", "mon.error_leaves_zone_untouched", "mon.must_reject_classes", "mon.notdone_leaves_zone_untouched"]
+REQUIRED = ["mon.via_socket_loop", "mon.valid_transfer_converges", "mon.faulted_transfer", "mon.error_leaves_zone_untouched", "mon.must_reject_classes", "mon.notdone_leaves_zone_untouched"]
 BUDGET = {"quick": 45.0, "thorough": 480.0}
 
 FACTORIES = [("plain", dns.zone.Zone), ("versioned", dns.versioned.Zone), ("btree", dns.btreezone.Zone)]
@@ -425,6 +425,124 @@ def faults_for(rng, msgs, serials, base_serial):
 MUST_REJECT = {"rcode", "question-name", "question-type", "surplus-after-final-soa-same-message", "soa-serial-backwards", "truncate"}
 
 
+# ------------------------------------------------------------------------------------------ through dns.query.inbound_xfr
+
+
+class _Stream:
+    """scripted stream socket handed out by a stand-in for dns.query.make_socket"""
+
+    def __init__(self, data, rng):
+        self.data, self.pos, self.rng = data, 0, rng
+        self.written = bytearray()
+
+    def recv(self, n):
+        if self.pos >= len(self.data):
+            return b""
+        k = max(1, min(n, self.rng.choice((1, 2, 7, 100, n))))
+        out = self.data[self.pos:self.pos + k]
+        self.pos += len(out)
+        return out
+
+    def send(self, data):
+        self.written += data
+        return len(data)
+
+    def __enter__(self):
+        return self
+
+    def __exit__(self, *a):
+        return False
+
+
+def run_via_query(ctx, rng, zname, factory, relativize, z0, s0, kind, msgs, sign, last_unsigned, case):
+    """drive the real socket loop (dns.query.inbound_xfr) over a scripted stream; optional TSIG"""
+    import struct
+
+    import dns.query
+    import dns.tsig
+    from vlib.mon.hooks import swap_attr
+
+    incremental = kind != "axfr"
+    z = build_zone(factory, relativize, z0, s0)
+    before = zone_fp(z)
+    ref = interpret(z0, s0, kind, False, msgs)
+    key = dns.tsig.Key("xfr-key.example.", b"0123456789abcdef0123456789abcdef") if sign else None
+    q, serial = dns.xfr.make_query(z, serial=s0 if incremental else None, keyring=key)
+    import dns.renderer
+
+    clock = _FrozenClock()
+    with swap_attr(dns.message, "time", clock), swap_attr(dns.renderer, "time", clock):
+        return _run_via_query(ctx, rng, zname, relativize, z, before, ref, key, q, kind, msgs, sign, last_unsigned, case)
+
+
+class _FrozenClock:
+    """the request is rendered (and signed) twice, by the harness and by the library: both must see one instant"""
+
+    def time(self):
+        return 1_800_000_000.0
+
+
+def _run_via_query(ctx, rng, zname, relativize, z, before, ref, key, q, kind, msgs, sign, last_unsigned, case):
+    import struct
+
+    import dns.query
+    from vlib.mon.hooks import swap_attr
+
+    qw = q.to_wire()  # signs the query: q.mac is the request MAC
+    stream = bytearray()
+    tctx = None
+    for i, m in enumerate(msgs):
+        mm = dns.message.Message(id=q.id)
+        mm.flags = dns.flags.QR | dns.flags.AA
+        mm.set_rcode(m["rcode"])
+        if m["qname"] is not None:
+            mm.find_rrset(mm.question, dns.name.from_text(m["qname"]), dns.rdataclass.IN, dns.rdatatype.from_text(m["qtype"]), create=True, force_unique=True)
+        for o, t, ttl, text in m["records"]:
+            mm.answer.append(dns.rrset.from_text(o, ttl, "IN", t, text))
+        unsigned = sign and last_unsigned and i == len(msgs) - 1
+        if sign and not unsigned:
+            mm.use_tsig(key)
+            mm.request_mac = q.mac if i == 0 else b""
+            w = mm.to_wire(max_size=65535, want_shuffle=False, multi=True, tsig_ctx=tctx)
+            tctx = mm.tsig_ctx
+        else:
+            w = mm.to_wire(max_size=65535, want_shuffle=False)
+        stream += struct.pack("!H", len(w)) + w
+    fake = _Stream(bytes(stream), rng)
+    err = None
+    try:
+        with swap_attr(dns.query, "make_socket", lambda *a, **k: fake), swap_attr(dns.query, "_connect", lambda *a, **k: None), \
+                swap_attr(dns.query, "_wait_for", lambda *a, **k: None):
+            dns.query.inbound_xfr("192.0.2.1", z, query=q, timeout=5, lifetime=30)
+    except (dns.exception.DNSException, EOFError, KeyError, ValueError) as e:
+        err = e
+    except Exception as e:
+        ctx.violation(f"inbound_xfr-raised-foreign:" + core.exc_sig(e), repr(e), case)
+        return
+    after = zone_fp(z)
+    tag = f"{zname}:{'rel' if relativize else 'abs'}:{'tsig' if sign else 'plain'}"
+    ctx.count("mon.via_socket_loop")
+    ctx.seen(("via-query", kind, zname, sign, last_unsigned, type(err).__name__ if err else "ok", ref[0]))
+    if bytes(fake.written) != struct.pack("!H", len(qw)) + qw and not sign:
+        ctx.violation("inbound_xfr-request-not-framed-as-rendered", "", case)
+    if err is not None:
+        if after[0] != before[0]:
+            what = "missing-tsig-on-last-message" if (sign and last_unsigned) else "other"
+            ctx.violation(f"error-reported-for-applied-transfer:via-socket-loop:{what}", f"{tag}: {err!r}; zone changed", case)
+        elif ref[0] == "ok" and not (sign and last_unsigned):
+            ctx.violation(f"valid-stream-rejected:via-socket-loop:{type(err).__name__}", f"{tag}: {err!r}", case)
+        return
+    if sign and last_unsigned and ref[0] == "ok" and after[0] != before[0]:
+        ctx.violation("transfer-applied-although-last-message-unsigned", tag, case)
+        return
+    if ref[0] == "ok":
+        want = before[0] if ref[1] is None else content_of(ref[1], ref[2])
+        if after[0] != want:
+            ctx.violation("transfer-result-differs-from-server-zone:via-socket-loop", f"{tag}: {diffc(after[0], want)}", case)
+    elif after[0] != before[0]:
+        ctx.violation(f"malformed-stream-accepted:via-socket-loop:{ref[1] if len(ref) > 1 else ref[0]}", tag, case)
+
+
 def run(spec, ctx):
     rng = ctx.rng
     for it in range(spec["n"]):
@@ -446,6 +564,13 @@ def run(spec, ctx):
                 ctx.count("evaluations")
                 ctx.count("mon.valid_transfer_converges")
                 run_transfer(ctx, zname, factory, relativize, z0, s0, base_kind if kind != "ixfr-udp-usetcp" else "ixfr", is_udp, msgs, None, case)
+                if not is_udp and kind != "ixfr-udp-usetcp":
+                    zn2, fac2 = FACTORIES[rng.randrange(3)]
+                    sign = rng.random() < 0.5
+                    last_unsigned = sign and len(msgs) > 1 and rng.random() < 0.3
+                    rel2 = rng.random() < 0.5
+                    run_via_query(ctx, rng, zn2, fac2, rel2, z0, s0, base_kind, msgs, sign, last_unsigned,
+                                  dict(case, via="dns.query.inbound_xfr", tsig=sign, last_unsigned=last_unsigned, zone=zn2, relativize=rel2))
                 if it < 1 and kind == "ixfr-multistep" and how == "one":
                     ctx.sample({"stream": kind, "base": s0, "target": serials[-1], "records": [" ".join(map(str, r)) for r in recs]})
                 # single-fault enumeration on streams that are short enough
